@@ -2,7 +2,7 @@
    (Model/SvdDecomp.v); the SVD oracle `svd` is universally quantified, what is assumed about its
    answers is the explicit per-run contract (step_ok / loop_ok / tt_ok ...). *)
 From Coq Require Import List Arith ZArith Ring Lia Reals.
-From TLV Require Import Base.Shape Base.PyList Base.Tensor Base.Ops Model.Base Model.SvdDecomp Proofs.SvdDecompProofs
+From TLV Require Import Base.Shape Base.PyList Base.Tensor Base.Ops Model.Base Model.SvdDecomp Model.SvdDecompRingReq Proofs.SvdDecompProofs
      Proofs.SvdDecompProofsR Proofs.SvdDecompTucker Proofs.SvdDecompTuckerFull Proofs.SvdDecompTuckerR
      Proofs.SvdDecompRing Proofs.SvdDecompRingR Proofs.SvdDecompPyth Proofs.SvdDecompError
      Proofs.SvdDecompTails Proofs.SvdDecompErrorR Proofs.SvdDecompTTM
@@ -10,7 +10,7 @@ From TLV Require Import Base.Shape Base.PyList Base.Tensor Base.Ops Model.Base M
      Proofs.SvdDecompTuckerErr Proofs.SvdDecompTuckerBound Proofs.SvdDecompHosvdBound
      Proofs.SvdDecompPartial Proofs.SvdDecompTuckerGen Proofs.SvdDecompRingErr Proofs.SvdDecompTTMErr
      Proofs.SvdDecompValidate Proofs.SvdDecompRingPartial Proofs.SvdDecompRingErrR
-     Proofs.SvdDecompRankCond Model.SvdDecompSymeig Proofs.SvdDecompSymeig Proofs.SvdDecompSymeigRing Proofs.SvdDecompSymeigEig Model.SvdDecompRand Proofs.SvdDecompRand Proofs.SvdDecompEckartYoung Proofs.SvdDecompTTUpper Proofs.SvdDecompMethodsTucker Proofs.SvdDecompTTRank Proofs.SvdDecompTTMRank Proofs.SvdDecompTuckerRank Proofs.SvdDecompHooiBound Proofs.SvdDecompRingRank Proofs.SvdDecompTuckerSemi Proofs.SvdDecompTuckerSemiEx Proofs.SvdDecompSymeigWide.
+     Proofs.SvdDecompRankCond Model.SvdDecompSymeig Proofs.SvdDecompSymeig Proofs.SvdDecompSymeigRing Proofs.SvdDecompSymeigEig Model.SvdDecompRand Proofs.SvdDecompRand Proofs.SvdDecompEckartYoung Proofs.SvdDecompTTUpper Proofs.SvdDecompMethodsTucker Proofs.SvdDecompTTRank Proofs.SvdDecompTTMRank Proofs.SvdDecompTuckerRank Proofs.SvdDecompHooiBound Proofs.SvdDecompRingRank Proofs.SvdDecompTuckerSemi Proofs.SvdDecompTuckerSemiEx Proofs.SvdDecompSymeigWide Proofs.SvdDecompRingUpper Proofs.SvdDecompRingCuts.
 Import ListNotations.
 
 (* exactness of one TT-SVD step, over every commutative ring: truncating + sign-flipping a
@@ -1258,3 +1258,83 @@ Print Assumptions C09_tucker_all_methods_exact_R.
 
 Example C09_nonvacuous_symeig_wide : symeig_wide_ok (/ 4)%R wM 2 2 2 (symeig_ans Rops wM wW [(/ 2)%R; 1%R]).
 Proof. exact symeig_wide_satisfiable. Qed.
+
+(* ============================================================ tensor_ring: upper bound in terms of the spectrum of X ============ *)
+(* one loop step: the working unfolding is (P (x) I)^T W1_[k] (frame P with orthonormal columns), W1 the remainder of the first SVD
+   = the r0 column blocks of U^T X_(0) for the r0 * r1 orthonormal columns u of the first U; if rho * r0 <= r then the tail of the
+   working unfolding at r kept triplets is at most the tail at rho kept triplets of X viewed as (s0 m n) x c
+   (Eckart-Young for the working unfolding + Bessel for the frame + Bessel for the whole first U) *)
+Theorem C09_ring_step_tail_le : forall (Xd Wd : list R) (u : nat -> nat -> R) (s0 r0 r1 m n c rk r rho : nat)
+  (P : nat -> nat -> R) (W : list R) (aM aX : svdans),
+  0 < m -> 0 < n -> 0 < c -> 0 < r0 ->
+  orthonormal_fun Rops u s0 (r0 * r1) ->
+  (forall b j a, b < r1 -> j < (m * n) * c -> a < r0 ->
+     nth ((b * ((m * n) * c) + j) * r0 + a) Wd 0%R
+     = fsumn Rops s0 (fun i0 => (u i0 (a * r1 + b)%nat * nth (i0 * ((m * n) * c) + j)%nat Xd 0)%R)) ->
+  frame_inv Wd (r1 * m) (n * (c * r0)) rk P W ->
+  svd_sorted_contract (mk [rk * n; c * r0] W) (rk * n) (c * r0) r aM ->
+  svd_full_contract (mk [s0 * (m * n); c] Xd) (s0 * (m * n)) c rho aX ->
+  rho * r0 <= r ->
+  (tail2 Rops r (snd3 aM) <= tail2 Rops rho (snd3 aX))%R.
+Proof. exact ring_step_tail_le. Qed.
+Print Assumptions C09_ring_step_tail_le.
+
+(* FULL, every start mode, every order and rank request: squared tensor-ring error <= discarded squared singular values of the first
+   unfolding of the rotated input (rank[mode] * rank[mode+1] kept) + sum over its later sequential unfoldings of their discarded
+   squared singular values at (realised bond) / rank[mode] kept triplets (integer division).  Premises: tr_sorted (LAPACK's contract
+   with sorted singular values for every call of the run; nothing about what is discarded) and tr_x_contract (the answers svdX gives
+   for those unfoldings of X meet the full contract).  For rank[mode] = 1 this is the TT-SVD root-sum-square bound. *)
+Theorem C09_tensor_ring_error_upper : forall (svd svdX : nat -> tensor R -> svdans) (X : tensor R) (rank : rank_spec) (mode : nat)
+  (cores : list (tensor R)),
+  tr_sorted svd X rank mode -> tr_x_contract svd svdX X rank mode ->
+  tensor_ring Rops svd X rank mode = Ok cores ->
+  (tr_err2 Rops X cores <= Rsum (tr_x_tail_list svd svdX X rank mode))%R.
+Proof. exact tensor_ring_error_upper. Qed.
+Print Assumptions C09_tensor_ring_error_upper.
+
+Example C09_nonvacuous_tr_upper :
+  let svd := fun (_ : nat) (_ : tensor R) => ey_a in
+  tr_sorted svd ey_M (inr [1; 1; 1]) 0 /\ tr_x_contract svd svd ey_M (inr [1; 1; 1]) 0.
+Proof. exact tr_upper_hypotheses_satisfiable. Qed.
+
+(* ============================================================ tensor_ring: the lower bound for EVERY cut of the ring ============ *)
+(* the squared ring error is invariant under rotating the cores together with the modes (any commutative ring) *)
+Theorem C09_tr_err2_rotate : forall (F : Type) (Op : fops F),
+  ring_theory (f0 Op) (f1 Op) (fadd Op) (fmul Op) (fsub Op) (fopp Op) (@eq F) ->
+  forall (X : tensor F) (fs : list (tensor F)) (l mode : nat),
+  0 < mode -> mode < ndim X -> bonds l fs l -> length fs = ndim X ->
+  tr_err2 Op X (lastn mode fs ++ firstn (ndim X - mode) fs)
+  = tr_err2 Op (transpose (f0 Op) (rotate mode (seq 0 (ndim X))) X) fs.
+Proof. exact @tr_err2_rotate. Qed.
+Print Assumptions C09_tr_err2_rotate.
+
+(* FULL, every start mode: for every cut of the ring with rows = modes a .. b-1 (0 < a < b <= order; a = 0 is
+   C09_tensor_ring_error_lower) the squared error is at least the discarded tail, at (bond entering core a) * (bond leaving core b-1)
+   kept triplets, of the unfolding of X whose rows are those modes (= the unfolding after b - a modes of X rotated by a) *)
+Theorem C09_tensor_ring_error_lower_any_cut : forall (svd : nat -> tensor R -> svdans)
+  (X : tensor R) (rank : rank_spec) (mode : nat) (cores : list (tensor R)),
+  tensor_ring Rops svd X rank mode = Ok cores ->
+  forall a b, 0 < a -> a < b -> b <= ndim X ->
+  exists m, forall aX,
+    let Xp := transpose 0%R (rotate a (seq 0 (ndim X))) X in
+    let fs := skipn a cores ++ firstn a cores in
+    let r := m * nth 2 (shape (nth (b - a - 1) fs (mk [] []))) 0 in
+    svd_sorted_contract (x_unfolding Xp (b - a)) (prod (firstn (b - a) (shape Xp))) (prod (skipn (b - a) (shape Xp))) r aX ->
+    (tail2 Rops r (snd3 aX) <= tr_err2 Rops X cores)%R.
+Proof. exact tensor_ring_error_lower_any_cut. Qed.
+Print Assumptions C09_tensor_ring_error_lower_any_cut.
+
+Example C09_nonvacuous_ring_any_cut :
+  let cores := [mk [1; 2; 1] [1%R; 0%R]; mk [1; 2; 1] [2%R; 0%R]] in
+  let Xp := transpose 0%R (rotate 1 (seq 0 (ndim ey_M))) ey_M in
+  length cores = ndim ey_M /\ bonds 1 (firstn 1 cores) 1 /\ bonds 1 (skipn 1 cores) 1 /\
+  ey_for (x_unfolding Xp 1) (prod (firstn 1 (shape Xp))) (prod (skipn 1 (shape Xp))) 1 ey_a /\
+  (tail2 Rops 1 (snd3 ey_a) <= tr_err2 Rops ey_M cores)%R.
+Proof. exact ring_any_cut_nonvacuous. Qed.
+
+(* the decidable form of the full-request premise, evaluated by the check (Corr/C09.v, kind KFullReq) on every tensor_ring input its
+   generator labels "sufficient", implies the premise of C09_tensor_ring_exact_full_request *)
+Theorem C09_tr_full_requestb_sound : forall (X : tensor R) (rank : rank_spec) (mode : nat),
+  tr_full_requestb X rank mode = true -> tr_full_request X rank mode.
+Proof. exact tr_full_requestb_sound. Qed.
+Print Assumptions C09_tr_full_requestb_sound.
